@@ -1,6 +1,6 @@
 ---------------------------- MODULE MarkupTrace ----------------------------
 (* Recorded renderings of the real formatters / outputs checked against Markup.
-   event: [msg (segments), base (<<>> or <<style>>: format(.., style=)), col (a decorated rendering is expected),
+   event: [claim ("all" | "text": only the text clauses, see below), msg (segments), base (<<>> or <<style>>: format(.., style=)), col (a decorated rendering is expected),
            how (which call produced it - used as key), res ("ok" | exception class), toks (the tokenised result:
            [k |-> "c", c, codes |-> <<>>] | [k |-> "sgr", c |-> "", codes] | [k |-> "esc", ...] for any other escape)]
    P-clauses hold for balanced messages (an undecorated rendering must be free of escapes for every message):
@@ -30,10 +30,13 @@ Clauses(e) ==
       ok == e.res = "ok"
   IN /\ Check(tid, l, "P.markup.plain_clean", e.how, (ok /\ ~e.col) => NoEscape(e.toks))
      /\ Check(tid, l, "P.markup.text", e.how, bal => (ok /\ Strip(e.toks) = TextOf(e.msg)))
-     /\ Check(tid, l, "P.markup.codes", e.how, (bal /\ e.col) => (OnlySgr(e.toks) /\ Fold(e.toks, {}) = PRender(e.msg, e.base)))
-     /\ Check(tid, l, "P.markup.reset", e.how, (bal /\ e.col) => FinalCodes(e.toks, {}) = {})
-     /\ Note(tid, l, "A.tokens", (ok /\ ~err) => e.toks = out)
-     /\ Note(tid, l, "A.error", ok = ~err)
+     \* claim = "text": an earlier message through the same formatter was not balanced (styles may still be open on
+     \* it) - what carries over is not this property's subject, the text of a balanced message must be right all the same
+     /\ Check(tid, l, "P.markup.codes", e.how,
+              (bal /\ e.col /\ e.claim = "all") => (OnlySgr(e.toks) /\ Fold(e.toks, {}) = PRender(e.msg, e.base)))
+     /\ Check(tid, l, "P.markup.reset", e.how, (bal /\ e.col /\ e.claim = "all") => FinalCodes(e.toks, {}) = {})
+     /\ Note(tid, l, "A.tokens", (ok /\ ~err /\ e.claim = "all") => e.toks = out)
+     /\ Note(tid, l, "A.error", e.claim = "all" => (ok = ~err))
 
 TCompare ==
   /\ l <= Len(T) /\ (done \/ err)
